@@ -1615,6 +1615,7 @@ impl Prop for C20 {
 			"ex1" => self.grid.len() as u64 * tier.pick(1, 6),
 			"ex2" => tier.pick(0, self.grid.len() as u64),
 			"evt" => self.grid.len() as u64 * tier.pick(1, 3),
+			"pat" => tier.pick(32, 1200),
 			_ => tier.pick(48, 2000),
 		}
 	}
@@ -1622,6 +1623,38 @@ impl Prop for C20 {
 		self.strategy_at(tier, 0).unwrap()
 	}
 	fn strategy_at(&self, tier: Tier, index: u64) -> Option<BoxedStrategy<Case>> {
+		if self.part == "pat" {
+			// structured deep schedules for the event states: R runs a sections, the (multi-section) operation O runs b
+			// sections, the block is accepted, R runs j more sections, O completes, R completes. Up to 3 preemptions,
+			// i.e. beyond the enumerated bounds; (a, b, j) are drawn, 8 schedules per case.
+			let pat = (0u8..10, 6u8..16, 0u8..9).prop_map(|(a, b, j)| {
+				let mut v = vec![0u8; a as usize];
+				v.extend(std::iter::repeat(86u8).take(b as usize));
+				v.push(171);
+				v.extend(std::iter::repeat(0u8).take(j as usize));
+				v.push(128);
+				v
+			});
+			return Some(
+				(
+					prop_oneof![Just(S_NOCHANGE_POSTED), Just(S_CHANGE_POSTED), Just(S_RECV_POSTED)],
+					if tier == Tier::Quick { Just(Var::default()).boxed() } else { prop_oneof![1 => Just(Var::default()), 1 => var_strategy()].boxed() },
+					prop_oneof![3 => Just(R_REFRESH), 1 => Just(R_SCAN)],
+					prop_oneof![2 => Just(O_CANCEL), 1 => Just(O_REFRESH)],
+					prop::collection::vec(pat, 8..=8),
+				)
+					.prop_map(|(state, var, r, o, scheds)| Case {
+						state,
+						var,
+						r,
+						ops: vec![o, O_MINE],
+						scheds: Some(scheds),
+						bound: None,
+						limit: 0,
+					})
+					.boxed(),
+			);
+		}
 		if self.part != "smp" {
 			// deterministic grid; the first round uses the default variation of each start state, later
 			// rounds (thorough) draw one
@@ -1695,6 +1728,7 @@ impl Prop for C20 {
 			"ex1" => "every (start state x R kind x one O operation) cell: all schedules enumerated when O holds the wallet lock for its whole duration (init_send, lock, receive, finalize: R's lock sections + 1 positions); O = cancel / refresh (themselves sequences of lock sections) enumerated up to a preemption bound (1 quick; 2 in the first thorough round, 1 in the later rounds that draw state variations). evaluations = schedules executed; non-trivial = schedule in which an O thread runs strictly between two lock sections of R (counted per schedule in extra.nontrivial_schedules; a case is non-trivial if it contains one)".into(),
 			"ex2" => "thorough only: every (start state x R kind x two lock-holding O operations) cell, all schedules".into(),
 			"evt" => "start states with a posted transaction whose block is built but not yet accepted; one thread is the node event 'block accepted'; R + event: all schedules; R + cancel/refresh + event: preemption bound 1 (quick, at most 160 executions) / 2 (thorough, first round; later rounds with drawn state variations use bound 1); state compared after one additional quiescent refresh in both the interleaved and the serial runs".into(),
+			"pat" => "event start states (posted transaction, block built but not accepted), R in {refresh, scan}, O in {cancel, refresh}, node event 'block accepted'; 8 constructed schedules per case of the shape R x a, O x b, block, R x j, O to its end, R to its end with drawn (a, b, j): up to 3 preemptions, i.e. deeper than the enumerated bounds of evt; judged like evt (one quiescent refresh after both the interleaved and the serial runs)".into(),
 			_ => "R + 2..3 operations drawn from {init_send, lock, receive, finalize, cancel x2, refresh, cancel-other}, 6 random schedules (choice bytes) per case, R in {refresh, scan, scan(delete_unconfirmed)}; non-trivial as in ex1".into(),
 		}
 	}
@@ -1729,7 +1763,7 @@ impl Prop for C20 {
 	}
 }
 
-const PARTS: [&str; 4] = ["ex1", "ex2", "evt", "smp"];
+const PARTS: [&str; 5] = ["ex1", "ex2", "evt", "pat", "smp"];
 
 pub fn run(args: &Args, rep: &mut Report) {
 	let mut all_ex = true;
